@@ -1,7 +1,7 @@
 (* Model of vyxal/encoding.py: vyxal_to_utf8 / utf8_to_vyxal over the generated code
    page, and the table predicates of property C20.  No proofs here. *)
 From Coq Require Import List NArith ZArith Bool.
-From Vy Require Import Model.Base Model.Lexer Gen.Codepage Gen.ParserConsts Gen.Elements Gen.Yaml Gen.Known.
+From Vy Require Import Model.Base Model.Lexer Model.Parser Gen.Codepage Gen.ParserConsts Gen.Elements Gen.Yaml Gen.Known.
 Import ListNotations.
 Open Scope N_scope.
 
@@ -25,8 +25,6 @@ Definition all_in (s : str) (alphabet : str) : bool := forallb (fun c => mem c a
 
 Definition one_general_token (k : str) : bool := tokens_eqb (tokenise k) [Tok KGeneral k].
 
-Definition openers : str := map (fun t => fst (fst t)) structure_info.
-Definition closers : str := map snd structure_info.
 Definition all_modifiers : str := monadic_modifiers ++ dyadic_modifiers ++ triadic_modifiers.
 
 (* a table key is shadowed when the parser never looks it up: structure syntax,
